@@ -150,6 +150,8 @@ def generate(rs: int, tier: str, index: int) -> dict:
         step["v"] = _poly(ch.sub("v"), d2, shape=())
         step["shape"] = list(ch.choice([(), (2,), (2, 2)]))
     fills = FILLS if tier == "thorough" else ["zero"] + ch.sample(FILLS[1:], 2)
+    if not cast_cell and ch.sub("abort").chance(0.12):
+        step["abort_first"] = ch.sub("abort").below(100000)
     return {"property": ID, "run_seed": rs, "tier": tier, "prelude": prelude.gen_prelude(core.Chooser(rs, "prelude")), "fills": fills, "steps": [step]}
 
 
@@ -501,6 +503,10 @@ class Runner:
                     except Exception:  # noqa: BLE001
                         pass
                 outcome: Any
+                if step.get("abort_first") is not None:
+                    # history: the same request was made before and aborted between two lines of numpoly code
+                    with numpy.errstate(all="ignore"):
+                        seams.interrupted_first(thunk, NUMPOLY_DIR, step["abort_first"], self.stats)
                 try:
                     with numpy.errstate(all="ignore"):
                         res = thunk()
@@ -603,6 +609,8 @@ def simplify(plan: dict):
         for f in plan["fills"]:
             yield dict(plan, fills=[f])
     step = plan["steps"][0]
+    if step.get("abort_first") is not None:
+        yield dict(plan, steps=[{k: v for k, v in step.items() if k != "abort_first"}])
     for key in ("a", "b", "p"):
         lit = step.get(key)
         if isinstance(lit, dict) and "exponents" in lit:
